@@ -166,6 +166,11 @@ pub fn run(cx: &RunCtx) -> i32 {
         ctor(1, |mut k| G::un(Op::Map, k.remove(0))),
         ctor(1, |mut k| G::un(Op::ToSlice, k.remove(0))),
         ctor(1, |mut k| G::un(Op::Rewind, k.remove(0))),
+        // combinators that shelter the pending error while their parser runs (C17's decorations, memoized)
+        ctor(1, |mut k| G::un(Op::Label, k.remove(0)).with(|p| { p.n = 0; p.ok = false })),
+        ctor(1, |mut k| G::un(Op::Label, k.remove(0)).with(|p| { p.n = 1; p.ok = true })),
+        ctor(1, |mut k| G::un(Op::MapErr, k.remove(0))),
+        ctor(1, |mut k| G::un(Op::Memo, k.remove(0))),
     ];
     let tails = vec![G::leaf(Op::Empty), G::just('b'), G::just('é'), G::leaf(Op::End)];
     let mut shaped = vec![];
@@ -212,11 +217,35 @@ pub fn run(cx: &RunCtx) -> i32 {
     acc.merge(racc);
     acc.count("random_grammars", n_rand as u64);
 
+    // the same with the error-sheltering decorations (labelled, as_context, map_err, memoized) in the class
+    let mut bd = basis();
+    bd.ctors.extend(classes::decor_ctors());
+    bd.ctors.push(ctor(1, |mut k| G::un(Op::Memo, k.remove(0))));
+    let n_dec = cx.t(20_000, 400_000);
+    let dacc = for_each_index(n_dec, cx.threads, 64, |acc, i| {
+        let mut rng = Rng::derive(seed, 0xC06D, i as u64);
+        let sz = rng.range(4, 12);
+        let mut g = bd.random(&mut rng, sz);
+        for _ in 0..8 {
+            if g.any_node(&|n| matches!(n.op, Op::Label | Op::MapErr | Op::Memo)) {
+                break;
+            }
+            g = bd.random(&mut rng, sz);
+        }
+        let bufs: Vec<Buf> = (0..6).map(|_| Buf::new(&random_input(&mut rng, &['a', 'b', 'é'], 6))).collect();
+        let ps = parsers(&g);
+        for buf in &bufs {
+            all_types(acc, &sp, &g, buf, &ps, false, true);
+        }
+    });
+    acc.merge(dacc);
+    acc.count("random_grammars_with_sheltering_decorations", n_dec as u64);
+
     finish(
         cx,
         acc,
         Finish {
-            rule: format!("every grammar with <= {size} nodes over the C01/C02 class without negative lookahead x every input <= {max_len} over {{a,b,é}} with Rich errors (every {stride}th and all <= 3 nodes also with Simple, Cheap and EmptyErr); a sheltering sweep of {n_shaped} grammars (an alternative that fails deeper, then try_map/try_map_with/filter/map/to_slice/rewind around every inner grammar of a small class, then a tail); {n_rand} random grammars of {}..13 nodes x 6 multi-byte inputs with all four error types. Judged on the last reported error of every rejected input: (a) span inside the input, start<=end, on character boundaries, found = token at span start / None at end; (b) span = that of a failure at the reference model's furthest failure position; (c) Rich expected set = union over the failures tied there, user error preserved; (d) Simple and Cheap report Rich's span, EmptyErr exactly one error. Non-trivial: rejected input where the reference evaluation backtracked or merged >= 2 failures", size + 1),
+            rule: format!("every grammar with <= {size} nodes over the C01/C02 class without negative lookahead x every input <= {max_len} over {{a,b,é}} with Rich errors (every {stride}th and all <= 3 nodes also with Simple, Cheap and EmptyErr); a sheltering sweep of {n_shaped} grammars (an alternative that fails deeper, then try_map/try_map_with/filter/map/to_slice/rewind/labelled/labelled.as_context/map_err/memoized around every inner grammar of a small class, then a tail); {n_dec} random grammars of 4..11 nodes with labelled / as_context / map_err / memoized in the class x 6 inputs; {n_rand} random grammars of {}..13 nodes x 6 multi-byte inputs with all four error types. Judged on the last reported error of every rejected input: (a) span inside the input, start<=end, on character boundaries, found = token at span start / None at end; (b) span = that of a failure at the reference model's furthest failure position; (c) Rich expected set = union over the failures tied there, user error preserved; (d) Simple and Cheap report Rich's span, EmptyErr exactly one error. Non-trivial: rejected input where the reference evaluation backtracked or merged >= 2 failures", size + 1),
             exhaustive: false,
             exhaustive_note: format!("grammars <= {size} nodes x inputs <= {max_len}: complete for Rich"),
             assumptions: vec![
